@@ -48,39 +48,10 @@ def r_main_pkgpath(s):
     return s.replace('"%s"' % gen.MOD, '"main"')
 
 
-def r_typearg_main(s):
-    return re.sub(r"\b%s\.(?=[A-Z])" % re.escape(gen.MOD), "main.", s)
-
-
-def r_named_ptr_star(s):
-    return re.sub(r"\*+((?:main|pkgb|%s|%s)\.(?:PS|PP|P|Ptr)\b)" % (re.escape(gen.MOD), re.escape(gen.PKGB_PATH)), r"\1", s)
-
-
-def r_chan_parens(s):
-    for _ in range(6):
-        s2 = re.sub(r"chan \((<-chan (?:[^()]|\([^()]*\))*)\)", r"chan \1", s)
-        if s2 == s:
-            break
-        s = s2
-    return s
-
-
-def r_struct_tag(s):
-    return re.sub(r' "(?:[^"\\]|\\.)*"(?=;| \})', "", s)
-
-
 def r_typearg_literal(s):
     s = re.sub(r"struct \{ ", "struct{", s)
     s = re.sub(r"struct \{\}", "struct{}", s)
     return re.sub(r" \}", "}", s)
-
-
-def r_ptr_key(s):
-    return re.sub(r"map\[\*+", "map[", s)
-
-
-def r_field_tag_col(s):
-    return re.sub(r' "(?:[^"\\]|\\.)*" ((?:\d+|_) \[)', r' "" \1', s)
 
 
 def r_panic_method(s):
@@ -93,13 +64,7 @@ def r_flags(s):
 
 RULES = [
     ("reflect-pkgpath-main-is-module-path", r_main_pkgpath),
-    ("reflect-string-typearg-main-pkgpath", r_typearg_main),
-    ("reflect-string-named-pointer-extra-star", r_named_ptr_star),
-    ("reflect-string-chan-of-recv-chan-parens", r_chan_parens),
-    ("reflect-string-struct-tag-dropped", r_struct_tag),
-    ("reflect-string-map-pointer-key-star-dropped", r_ptr_key),
     ("reflect-string-typearg-literal-fallback", r_typearg_literal),
-    ("reflect-struct-tag-lost-when-field-type-converted", r_field_tag_col),
     ("reflect-panic-message-unknown-method", r_panic_method),
     ("reflect-call-result-fields-settable", r_flags),
 ]
@@ -185,7 +150,8 @@ def run(ck):
     ck.assumptions = ["strings are byte lists; strconv.Quote is modelled for the tag alphabet used (printable ASCII, quote, backslash, tab, valid UTF-8)",
                       "DeepEqual model: interface slots are not tracked in the visited set; slice identity is (backing array, offset, length)",
                       "recursive declarations are cut (TCut) below the first expansion; a cut type is never a pointer type",
-                      "types.TypeString fallback for struct/func literals as type arguments is not modelled (excluded from wf and from the model comparison)"]
+                      "types.TypeString fallback for struct/func literals as type arguments is not modelled (excluded from wf and from the model comparison)",
+                      "the model is evaluated with fx = true (the repaired Str/TFlag); fx = false is kept only for the theorems about the earlier code"]
     ck.coq_build("C15")
     ck.coq_props("LLGoV.C15.Props", "theories/C15/Props.v")
     ck.phase("coq")
@@ -235,7 +201,7 @@ def run(ck):
     rc, log = ck.go_test_overlay("ssa/abi", {"zz_verif_test.go": os.path.join(H, "abi_verif_test.go")}, run="TestVerifCyclic$",
                                  timeout=120)
     if "VERIF-CYCLIC-START" in log and "VERIF-CYCLIC-DONE" not in log:
-        ck.violation("tflag-cyclic-pointer-declaration-stack-overflow",
+        ck.violation("tflag-cyclic-pointer-declaration-does-not-terminate",
                      "Builder.TFlag does not terminate on `type N *N` (legal Go): " + ("stack overflow" if "stack" in log else "crash"),
                      {"source": "package p; type N *N; var v N", "log": log[-400:]})
     elif "VERIF-CYCLIC-START" not in log:
@@ -249,11 +215,11 @@ def run(ck):
     modelled = [i for i in range(len(types)) if "reflect-string-typearg-literal-fallback" not in feats[i] and i in S and "real" in S[i]]
     bad_str = set()
     if S:
-        bad = ck.coq_mismatches(hdr, ["(%s, %s)" % (terms[i], cb(S[i]["real"])) for i in modelled], "llgo_str", "str_eqb", "c15_str")
+        bad = ck.coq_mismatches(hdr, ["(%s, %s)" % (terms[i], cb(S[i]["real"])) for i in modelled], "(llgo_str true)", "str_eqb", "c15_str")
         bad_str = set(modelled[j] for j in bad)
-        bad2 = ck.coq_mismatches(hdr, ["(%s, %s)" % (terms[i], cb(S[i]["Str"])) for i in modelled], "llgo_Str", "str_eqb", "c15_Str")
+        bad2 = ck.coq_mismatches(hdr, ["(%s, %s)" % (terms[i], cb(S[i]["Str"])) for i in modelled], "(llgo_Str true)", "str_eqb", "c15_Str")
         bad_str |= set(modelled[j] for j in bad2)
-        badf = ck.coq_mismatches(hdr, ["(%s, %d%%N)" % (terms[i], S[i]["tflag"] & 22) for i in modelled], "llgo_tflag", "N.eqb", "c15_tflag")
+        badf = ck.coq_mismatches(hdr, ["(%s, %d%%N)" % (terms[i], S[i]["tflag"] & 22) for i in modelled], "(llgo_tflag true)", "N.eqb", "c15_tflag")
         for j in badf[:3]:
             i = modelled[j]
             ck.correspondence_broken("C15.Model/tflag", {"type": gen.gosrc(types[i]), "tflag": S[i]["tflag"]})
@@ -283,7 +249,7 @@ def run(ck):
     classes = collections.Counter()
     nstr_diff = 0
     for i, t in enumerate(types):
-        for f in feats[i] or ["no-defect-feature"]:
+        for f in feats[i] or ["plain"]:
             classes["type:" + f] += 1
         classes["kind:" + gen.underlying(t)[0]] += 1
         if i not in S or "T%d|String" % i not in G:
@@ -297,7 +263,7 @@ def run(ck):
             known, _ = classify_line("T%d|String" % i, real, want)
             if known is None and "reflect-string-typearg-literal-fallback" in feats[i]:
                 known = ["reflect-string-typearg-literal-fallback"]
-            if i in bad_str or not feats[i] or known is None:
+            if i in bad_str or known is None:
                 ck.violation("reflect-string-differs-from-go",
                              "the type string the compiler stores differs from reflect.Type.String of Go and is not one of the recorded defects",
                              {"type": gen.gosrc(t), "llgo": real, "go": want, "model_mismatch": i in bad_str})
@@ -385,9 +351,6 @@ def run(ck):
     return ck.finish()
 
 
-NARROW = ("int8", "int16", "int32", "uint8", "uint16", "uint32", "main.MyU8")
-
-
 def classify_e2e(k, attr, fam, lv, gv, t):
     """narrow key(s) for one differing probe line; 'permitted' for the documented two-word function value differences"""
     # documented: function values occupy two words -> Size/offsets of types that contain a function value
@@ -408,16 +371,10 @@ def classify_e2e(k, attr, fam, lv, gv, t):
         return ["reflect-pkgpath-named-interface-empty"]
     if attr == "PkgPath" and lv == "" and gv == "unsafe":
         return ["reflect-pkgpath-unsafe-pointer-empty"]
-    if re.match(r"Field\[\d+\]\.Tag$", attr) and re.match(r'^"" false "" false ""$', lv):
-        return ["reflect-struct-tag-lost-when-field-type-converted"]
     if k.startswith("CV."):
         m = re.match(r"(\S+) -> (\S+): ", gv)
         if m:
             src, dst = m.group(1), m.group(2)
-            if dst in NARROW:
-                return ["reflect-convert-narrow-int-not-truncated"]
-            if src == "float32" and dst in ("float32", "main.MyFloat32"):
-                return ["reflect-convert-float32-to-float32-garbage"]
             if src in ("string", "main.MyStr") and "slice-nil" in lv and "[0:]" in gv:
                 return ["reflect-convert-empty-string-gives-nil-slice"]
     known, _ = classify_line(k, lv, gv)
